@@ -11,12 +11,13 @@ Record twa := mkTwa {
   disc   : Z         (* DiscardedHeightDiff (int64) *)
 }.
 
-(* CalculateTwa: uint64 sum (wraps modulo 2^64) of PriceValue[0..n-1], divided by n.
-   PriceValue[i] out of range panics; n = 0 panics (integer division by zero). *)
+(* CalculateTwa: the 128-bit sum of PriceValue[0..n-1] divided by n (bits.Add64 / bits.Div64;
+   before the fix of C17-F2 the sum wrapped modulo 2^64).
+   PriceValue[i] out of range panics; n = 0 panics (division by zero). *)
 Definition calc_twa (vs : list Z) (n : Z) : option Z :=
   if n <=? 0 then None
   else if zlen vs <? n then None
-  else Some ((zsum (firstn (Z.to_nat n) vs) mod two64) / n).
+  else Some (zsum (firstn (Z.to_nat n) vs) / n).
 
 Definition wrap_idx (i n : Z) : Z := if i >=? n then 0 else i.
 
@@ -24,8 +25,14 @@ Definition wrap_idx (i n : Z) : Z := if i >=? n then 0 else i.
 Definition update_tail (n rate : Z) (t : option twa) : outcome (option twa) :=
   match t with
   | None =>
-      if rate >? 0
-      then Ok (Some (mkTwa [rate] 1 0 false (-1)))
+      if rate >? 0 then
+        (* first sample; since the fix of C17-F1 it completes a window of size 1 *)
+        if 1 >=? n then
+          match calc_twa [rate] n with
+          | None => Panic
+          | Some a => Ok (Some (mkTwa [rate] 0 a true (-1)))
+          end
+        else Ok (Some (mkTwa [rate] 1 0 false (-1)))
       else Ok None
   | Some tw =>
       if rate >? 0 then
@@ -249,7 +256,5 @@ Definition holds_C17_state (n : Z) (g : ghost) (last_positive : bool) (t : optio
        else true)
   end.
 
-(* known-finding classes (DESIGN.md section 5) *)
-Definition kf_C17_1 (n : Z) : bool := n =? 1.                         (* window size 1 *)
-Definition kf_C17_2 (n : Z) (g : ghost) : bool :=                     (* uint64 sum wraps *)
-  zsum (firstn (Z.to_nat n) (g_hist g)) >=? two64.
+(* C17-F1 (window size 1) and C17-F2 (uint64 wrap) were repaired in /repo ("fix:" commits);
+   their KF classes are gone and the theorems hold for every n >= 1 without a wrap guard. *)
